@@ -46,6 +46,11 @@ type Case struct {
 	WaitMs    uint       `json:"wait_ms"`
 	SysLog    bool       `json:"system_log"`
 	BufSize   int        `json:"bufio_size"`
+	// The consumer of the message channel stalls once, longer than the tolerance, before it takes message
+	// StallAt (a slow consumer must not be mistaken for a silent source).  MsgCap is the channel capacity.
+	MsgCap  int `json:"message_channel_capacity"`
+	StallAt int `json:"consumer_stall_at"` // -1 = never
+	StallMs int `json:"consumer_stall_ms"`
 }
 
 var errTimeout = errors.New("read /dev/ttyUSB0: i/o timeout")
@@ -169,7 +174,11 @@ func check(c Case, o *stats.Obs) error {
 	if c.SysLog {
 		cfg.SystemLog = log.New(io.Discard, "", 0)
 	}
-	msgChan := make(chan handler.Message, 4)
+	mc := c.MsgCap
+	if mc < 0 || mc > 64 {
+		mc = 4
+	}
+	msgChan := make(chan handler.Message, mc)
 	fh := filehandler.New(msgChan, cfg)
 	rd := &faultReader{data: input, steps: c.Steps, terminal: c.Terminal}
 	bs := c.BufSize
@@ -184,6 +193,9 @@ func check(c Case, o *stats.Obs) error {
 	deadline := time.After(30 * time.Second)
 collect:
 	for {
+		if c.StallMs > 0 && len(got) == c.StallAt {
+			time.Sleep(time.Duration(c.StallMs) * time.Millisecond)
+		}
 		select {
 		case m, ok := <-msgChan:
 			if !ok {
@@ -289,6 +301,9 @@ collect:
 	}
 	o.NonTrivial = inside
 	o.Class("terminal/" + c.Terminal)
+	if c.StallMs > 0 {
+		o.Class("consumer-stall")
+	}
 	if zeroTol {
 		o.Class("zero-tolerance")
 	}
@@ -306,6 +321,12 @@ func gen1(t *rapid.T) Case {
 	c.SysLog = rapid.Bool().Draw(t, "sysLog")
 	c.BufSize = rapid.SampledFrom([]int{16, 32, 4096}).Draw(t, "bufSize")
 	c.Terminal = rapid.SampledFrom([]string{"silence", "silence", "other-error"}).Draw(t, "terminal")
+	c.MsgCap = rapid.SampledFrom([]int{0, 1, 4}).Draw(t, "msgCap")
+	c.StallAt = -1
+	if c.TimeoutMs > 0 && rapid.IntRange(0, 3).Draw(t, "stall") == 0 {
+		c.StallAt = rapid.IntRange(0, 3).Draw(t, "stallAt")
+		c.StallMs = int(c.TimeoutMs) + 30
+	}
 	// cut the stream at drawn positions; put faults at some of the cuts
 	nCuts := rapid.IntRange(0, 5).Draw(t, "nCuts")
 	cuts := map[int]bool{}
